@@ -129,6 +129,20 @@ func c06Case(c *core.Ctx, idx int) {
 				}
 			}
 		}
+		// every capacity between "no room" and "enough": a reallocation then falls between any two
+		// writes of the encoder
+		if j%4 == 2 && len(ref) > 0 && len(ref) <= 400 && !multi {
+			for spare := 0; spare <= len(ref)+1; spare++ {
+				backing := append(make([]byte, 0, 3+spare), 0xA1, 0xB2, 0xC3)
+				out, err, pn := marshal(tc.p, backing, ptrTo(v))
+				if err != nil || pn != "" || len(out) != 3+len(ref) || !bytes.Equal(out[:3], []byte{0xA1, 0xB2, 0xC3}) || !bytes.Equal(out[3:], ref) {
+					rec.Violation("appended-bytes", fmt.Sprintf("prefix len 3 cap %d: result %x differs from the prefix followed by Marshal(nil, v) = %x (%v %s) %s", 3+spare, head(out, 80), head(ref, 80), err, trunc1(pn), desc()), caseExtra(tc, v, ref))
+					return
+				}
+			}
+			rec.Eval(len(ref) + 2)
+			rec.Count("buffer_capacities_tried", len(ref)+2)
+		}
 		// buffer re-use across calls
 		out, err, pn := marshal(tc.p, reuse[:0], ptrTo(v))
 		rec.Eval(1)
